@@ -93,6 +93,7 @@ class Profile:
     unaligned_pins: bool = False
     rates: bool = False
     day_efforts: bool = True
+    forward_refs: bool = True  # dependencies on tasks that are declared later in the file
     unsched: bool = False  # sprinkle unschedulable leaves: never-working resource, cycles, group allocations
     container_work: bool = False  # containers that carry effort / allocate themselves
     durs: list = field(default_factory=list)  # explicit (n, unit) project lengths to sample from (overrides weeks)
@@ -401,7 +402,10 @@ def project_specs(draw, pf: Profile):
             continue
         if draw(st.floats(0, 1)) >= pf.deps:
             continue
-        cands = [(q, u) for q, u in nodes[:idx] if q != p[: len(q)] and p != q[: len(p)]]
+        pool = nodes[:idx]
+        if pf.forward_refs and draw(st.integers(0, 3)) == 0:
+            pool = nodes  # also tasks declared later (forward references); acyclicity is kept by try_add_edge
+        cands = [(q, u) for q, u in pool if q != p and q != p[: len(q)] and p != q[: len(p)]]
         if not pf.container_deps:
             cands = [(q, u) for q, u in cands if not u.children]
         if not cands:
